@@ -627,6 +627,18 @@ func (ev *symEval) runBlock(fr *symFrame, b *ssa.BasicBlock, idx int, st *symSta
 				nm[kv.N] = vv
 				st.heap["map:"+mv.Desc] = SV{K: "mapval", M: nm}
 			} else {
+				if cur, ok := st.heap["smap:"+mv.Desc]; ok {
+					if kv.K == "str" && kv.Known {
+						nm := make(map[string]SV, len(cur.MS)+1)
+						for k, v := range cur.MS {
+							nm[k] = v
+						}
+						nm[kv.S] = vv
+						st.heap["smap:"+mv.Desc] = SV{K: "mapval", MS: nm}
+					} else {
+						delete(st.heap, "smap:"+mv.Desc) // an entry under an unknown key: the content is no longer known
+					}
+				}
 				st.trace = append(st.trace, Event{Kind: "mapupdate", What: mv.Desc, Args: []string{kv.Desc, vv.Desc}, In: fname(fr.fn)})
 			}
 		case *ssa.Go:
@@ -760,6 +772,10 @@ func (ev *symEval) doCall(fr *symFrame, st *symState, x *ssa.Call) ([]outcome, b
 	if bi, ok := cc.Value.(*ssa.Builtin); ok {
 		switch bi.Name() {
 		case "len":
+			if cur, ok := st.heap["smap:"+args[0].Desc]; ok && args[0].Len == nil {
+				fr.env[x] = symInt(int64(len(cur.MS)))
+				return nil, false
+			}
 			if args[0].Len != nil {
 				fr.env[x] = *args[0].Len
 			} else {
@@ -1061,6 +1077,13 @@ func (ev *symEval) evalValue(fr *symFrame, st *symState, v ssa.Value) SV {
 		if a.K == "int" {
 			return a
 		}
+		if tb, ok := x.Type().Underlying().(*types.Basic); ok && tb.Info()&types.IsString != 0 {
+			if _, fromSlice := x.X.Type().Underlying().(*types.Slice); fromSlice {
+				if bs, ok := concreteBytes(st, a); ok {
+					return symStr(string(bs)) // every byte of the slice is known
+				}
+			}
+		}
 		r := defaultFor(x.Type(), a.Desc)
 		r.Len = a.Len
 		return r
@@ -1252,6 +1275,12 @@ func (ev *symEval) evalValue(fr *symFrame, st *symState, v ssa.Value) SV {
 	case *ssa.MakeMap:
 		id := ev.fresh("makemap")
 		st.heap["map:"+id] = SV{K: "mapval", M: map[int64]SV{}}
+		if mt, ok := x.Type().Underlying().(*types.Map); ok {
+			if kb, ok := mt.Key().Underlying().(*types.Basic); ok && kb.Info()&types.IsString != 0 {
+				delete(st.heap, "map:"+id)
+				st.heap["smap:"+id] = SV{K: "mapval", MS: map[string]SV{}}
+			}
+		}
 		return SV{K: "ref", Known: true, Desc: id}
 	case *ssa.MakeChan:
 		return SV{K: "ref", Known: true, Desc: ev.fresh("makechan") + "(cap=" + ev.val(fr, x.Size).Desc + ")"}
